@@ -7,6 +7,10 @@ BASE = json.load(open("/root/.vp/BASELINE.json"))["cmd"] if Path("/root/.vp/BASE
     "cd /repo && /venv/bin/python -m pytest -ra -q -p no:cacheprovider --timeout=900 --continue-on-collection-errors --junitxml=<file>"
 
 CHECKS = {
+ "C09": dict(cat="exploration", ref="§C09",
+    tech="property-based testing (Hypothesis) with a metamorphic oracle: a harness-side XML writer re-writes the document (prefixes, default namespace, declaration placement, attribute order, inter-element whitespace, comments/PIs, CDATA, character references, encodings/BOM, blanks around non-string values, XInclude) driven by a generated choice tape; parse(rewritten) must equal parse(original)",
+    text="Generated models and instances; the document xsdata writes is rewritten without changing its infoset (self-checked with an independent libxml2 parse) using 2-8 rewrite kinds per case; both handlers must bind the rewritten document to an object structurally equal to the one bound from the original. Searched, not proved.",
+    note="Typing knowledge for the rewrites (QName-valued, non-string, element-only) comes from the ModelSpec via vlib/expect.py; with XInclude the pure-Python handler is only exercised on documents without QName-valued content (documented ElementTree prefix loss)."),
  "C03": dict(cat="exploration", ref="§C03, §3.3, §3.5",
     tech="property-based testing (Hypothesis): generated models x instances x user prefix maps x writers; oracles = two independent XML parsers (libxml2 strict, expat namespace mode) + an independent reference reading of the metadata compared node by node with values checked through a reference lexical model",
     text="Generated search over models, instances (all of Unicode, XML-illegal code points in a labelled fraction), both writers and user prefix maps (default namespace, collisions with generated prefixes, duplicates, hostile prefixes). The output must be well-formed for two independent parsers and equal - names, namespaces, nesting, order, xsi:nil/xsi:type, typed values, QName content resolved in scope - to the document vlib/expect.py derives from the ModelSpec alone; hostile input may instead raise a ValueError-derived xsdata error. Searched, not proved.",
